@@ -531,6 +531,11 @@ func (t *Target) gnmiUpdate(n *pb.Notification) (*ctree.Leaf, error) {
 				return nil, fmt.Errorf("%v : has value %v of type %T, expected string", metadata.Path(path[1]), u.Val, u.Val)
 			}
 			t.meta.SetStr(path[1], tv.StringVal)
+		default:
+			// The periodic metadata refresh reads these leaves back as int64.
+			if _, ok := u.GetVal().GetValue().(*pb.TypedValue_IntVal); !ok && len(path) == 2 && metadata.TargetIntValues[path[1]] != nil {
+				return nil, fmt.Errorf("%v : has value %v of type %T, expected int", path, u.Val, u.Val)
+			}
 		}
 	}
 	// Update an existing leaf.
